@@ -16,6 +16,8 @@ from __future__ import annotations
 
 import logging
 import math
+import multiprocessing
+import os
 import pathlib
 import random
 import warnings
@@ -24,6 +26,7 @@ from typing import Any
 import numpy as np
 
 from . import fixtures
+from . import core
 from .core import Machine, Violation, Skip, HarnessError, Ctx, digest
 
 # --------------------------------------------------------------------------
@@ -53,6 +56,12 @@ SINGLET_SETTINGS = {"S0": {"mfp": 100.0, "thickness": 20.0}, "S1": {"mfp": 100.0
 BAG_SETTINGS = {"S0": {"mfp": 50.0, "thickness": 5.0}, "S1": {"mfp": 20.0, "thickness": 4.0},
                 "S2": {"mfp": 50.0, "thickness": 7.0}}
 SETUP_CFG = {"phaseTracerTol": 1e-8}
+#: parameter scans re-parametrise ONE model instance in place between set-ups
+PARAM_SETS = {
+    "yukawa": {"P0": {}, "P1": {"y": 0.54}, "P2": {"msq": 1.02}},
+    "singlet": {"P0": {}, "P1": {"lHS": 0.91}, "P2": {"lSS": 1.02}},
+    "bag": {"P0": {}, "P1": {"cT": 0.03}, "P2": {"mu": 3.32}},
+}
 COLLISION = {"N": 7, "gamma": 0.5, "mix": -0.1}
 
 PROGRAMMING_ERRORS = frozenset({"TypeError", "AttributeError", "IndexError", "KeyError",
@@ -95,6 +104,73 @@ def _installTrace(WallGo: Any) -> None:
     traced._wgsimWrapper = True  # type: ignore[attr-defined]
     traced._wgsimOrig = orig  # type: ignore[attr-defined]
     EOM.wallPressure = traced
+
+
+STATE_FIELDS = ("paramSet", "point", "variant", "collKind", "valid", "tscale")
+
+
+def _computeReference(machine: Any, state: dict, op: str, step: dict) -> tuple:
+    """runs in a process forked from the pristine reference server"""
+    for name in STATE_FIELDS:
+        setattr(machine, name, state[name])
+    machine._dirs = dict(state["dirs"])
+    ctx = Ctx()
+    ctx._scratch = state["scratch"]
+    machine.ctx = ctx
+    stats = lambda: {"probes": dict(ctx.probes), "checks": dict(ctx.checks),  # noqa: E731
+                     "maxima": dict(ctx.maxima)}
+    try:
+        rec = machine._referenceLocal(op, step)
+    except Violation as v:
+        return ("violation", v.oracle, v.cause, v.message, stats())
+    return ("rec", rec, stats())
+
+
+class _ReferenceServer:
+    """A helper process forked at the very start of a run, before the history
+    touches the system under test.  Every reference ("a fresh manager asked only
+    this question") is computed in a fork of THIS pristine process, so that state
+    the history may have left in module globals or class attributes of WallGo
+    cannot reach - and equally poison - the reference."""
+
+    def __init__(self, machine: Any):
+        self.conn, childConn = multiprocessing.Pipe()
+        self.pid = os.fork()
+        if self.pid == 0:
+            code = 0
+            try:
+                self.conn.close()
+                while True:
+                    msg = childConn.recv()
+                    if msg is None:
+                        break
+                    state, op, step = msg
+                    try:
+                        result = core.runIsolated(_computeReference,
+                                                  (machine, state, op, step), 1500)
+                    except BaseException as exc:  # pylint: disable=broad-except
+                        result = ("error", core.formatException(exc))
+                    childConn.send(result)
+            except (EOFError, OSError, KeyboardInterrupt):
+                code = 1
+            finally:
+                os._exit(code)
+        childConn.close()
+
+    def request(self, state: dict, op: str, step: dict) -> tuple:
+        self.conn.send((state, op, step))
+        return self.conn.recv()
+
+    def close(self) -> None:
+        try:
+            self.conn.send(None)
+            self.conn.close()
+        except (OSError, BrokenPipeError):
+            pass
+        try:
+            os.waitpid(self.pid, 0)
+        except ChildProcessError:
+            pass
 
 
 def _num(x: Any) -> Any:
@@ -180,7 +256,7 @@ class ManagerMachine(Machine):
                      "faultFired": ["callback_raises", "callback_nan", "missing_file"]},
     }
     OPS = ("setup", "lte", "solve", "detonation", "hydro", "thermo", "config", "colldir",
-           "new_model", "arm", "solver_reuse")
+           "new_model", "arm", "solver_reuse", "params")
     POSSIBLE_BIGRAMS = len(OPS) * (len(OPS) + 1)
 
     # ------------------------------------------------------------------ config
@@ -195,12 +271,13 @@ class ManagerMachine(Machine):
         kind = {"bag": "bag", "singlet": "singlet"}.get(theme, "yukawa")
         pts = fixtures.POINTS[kind]
         weights = {"setup": 1, "lte": 1, "solve": 3, "detonation": 1, "hydro": 1, "thermo": 1,
-                   "config": 1, "colldir": 0, "new_model": 1, "arm": 1, "solver_reuse": 1}
+                   "config": 1, "colldir": 0, "new_model": 1, "arm": 1, "solver_reuse": 1,
+                   "params": 1}
         pool = [v for v in VARIANTS if v != "V0"]
         offEq = False
         good = list(pts["good"])
         if theme == "history":
-            weights.update(hydro=3, detonation=2, lte=2, thermo=2, config=1, arm=0)
+            weights.update(hydro=3, detonation=2, lte=2, thermo=2, config=1, arm=0, params=2)
             variants = ["V0", rng.choice(["V1", "V5"])]
             good = [t for t in good if t >= 6.5]
         elif theme == "labelling":
@@ -211,7 +288,7 @@ class ManagerMachine(Machine):
             offEq = True
             variants = ["V0", rng.choice(["V6", "V1"])]
             weights.update(colldir=6, config=1, detonation=0, arm=1, hydro=1, thermo=0,
-                           new_model=0, lte=0)
+                           new_model=2, lte=0)
             good = [t for t in good if t >= 7.0]
         elif theme == "lowT":
             good = [5.5, 5.8, 6.5]
@@ -249,15 +326,22 @@ class ManagerMachine(Machine):
         self.kind = cfg["kind"]
         self.params = fixtures.MODEL_PARAMS[self.kind]
         self.classes = fixtures.modelClasses(WallGo)
+        self.paramSet = "P0"
         self.variant = cfg.get("firstVariant", "V0")
-        self.mgr, self.model, self.ctl = self._freshManager(SETUP_CFG, self.variant, None)
-        # the examples shipped with WallGo keep ONE WallSolverSettings object and
-        # change its fields in place between calls; half of the runs do the same
-        self.settingsObj: Any = None
+        self.tscale: float | None = None
         self.point: float | None = None
         self.valid = False
         self.collKind = "none"
         self._dirs: dict = {}
+        self.settingsObj: Any = None
+        self.otherModels: list = []
+        self.lastPoint: float | None = None
+        ctx.scratch()
+        # forked NOW, while this process has not run any WallGo computation
+        self.refServer: _ReferenceServer | None = _ReferenceServer(self)
+        self.mgr, self.model, self.ctl = self._freshManager(SETUP_CFG, self.variant, None)
+        # the examples shipped with WallGo keep ONE WallSolverSettings object and
+        # change its fields in place between calls; half of the runs do the same
         if cfg["offEq"]:
             self.collKind = "good"
             self.mgr.setPathToCollisionData(self._collisionDir("good"))
@@ -288,7 +372,8 @@ class ManagerMachine(Machine):
 
     def _freshManager(self, setupCfg: dict, variant: str, collKind: str | None) -> tuple:
         ctl = fixtures.CallbackCtl()
-        model = self.classes[self.kind](ctl, self.params)
+        model = self.classes[self.kind](
+            ctl, dict(self.params, **PARAM_SETS[self.kind][getattr(self, "paramSet", "P0")]))
         mgr = self.WallGo.WallGoManager()
         mgr.setVerbosity(logging.ERROR)
         logging.disable(logging.CRITICAL)
@@ -331,6 +416,9 @@ class ManagerMachine(Machine):
     def close(self) -> None:
         _TRACE["active"] = None
         logging.disable(logging.WARNING)
+        if self.refServer is not None:
+            self.refServer.close()
+            self.refServer = None
 
     # ------------------------------------------------------------------ generator
     def nextStep(self, rng: random.Random, index: int) -> dict | None:
@@ -358,7 +446,12 @@ class ManagerMachine(Machine):
         if op == "setup":
             if cfg["bad"] and rng.random() < 0.15 and not last:
                 return {"op": "setup", "point": rng.choice(cfg["bad"])}
-            return {"op": "setup", "point": rng.choice(cfg["good"])}
+            step = {"op": "setup", "point": rng.choice(cfg["good"])}
+            if self.prevOp == "params" and self.lastPoint is not None and rng.random() < 0.7:
+                step["point"] = self.lastPoint  # a parameter scan at fixed temperature
+            if rng.random() < 0.3:
+                step["tscale"] = rng.choice([0.5, 2.0])
+            return step
         if op == "solve":
             offEq = bool(cfg["offEq"] and rng.random() < (0.9 if cfg.get("theme") == "offeq"
                                                           else 0.6))
@@ -382,6 +475,8 @@ class ManagerMachine(Machine):
                     "repoint": rng.random() < 0.3}
         if op == "new_model":
             return {"op": "new_model"}
+        if op == "params":
+            return {"op": "params", "set": rng.choice(["P0", "P1", "P2"])}
         if op == "solver_reuse":
             offEq = bool(cfg["offEq"] and self.collKind in ("good", "good2")
                          and rng.random() < 0.7)
@@ -401,13 +496,17 @@ class ManagerMachine(Machine):
     # ------------------------------------------------------------------ references
     def _refKey(self, op: str, args: Any) -> tuple:
         coll = self.collKind if (op == "solve" and args and args[1]) else "-"
-        return (self.kind, self.point, self.variant, coll, op,
+        return (self.kind, self.paramSet, self.tscale, self.point, self.variant, coll, op,
                 digest(args) if args is not None else None)
 
     def _setupCall(self, mgr: Any, point: float) -> None:
+        """self.tscale (set from the set-up step) scales the temperature variation
+        scale handed to WallGo: a scan may adapt it from point to point"""
         pts = fixtures.POINTS[self.kind]
         W = self.WallGo
         tscale = pts["Tscale"] if pts["Tscale"] is not None else 0.5 * point
+        if self.tscale is not None:
+            tscale = tscale * self.tscale
         mgr.setupThermodynamicsHydrodynamics(
             W.PhaseInfo(temperature=point, phaseLocation1=W.Fields(pts["phase1"]),
                         phaseLocation2=W.Fields(pts["phase2"])),
@@ -498,7 +597,7 @@ class ManagerMachine(Machine):
     def _reference(self, op: str, step: dict, args: Any) -> dict:
         """fresh manager + same model/config/point + only this call"""
         key = self._refKey(op, args) if op != "setup" else \
-            (self.kind, step["point"], "setup")
+            (self.kind, self.paramSet, step.get("tscale"), step["point"], "setup")
         if key in _REF_CACHE:
             self.ctx.probes["reference_cache_hit"] += 1
             return _REF_CACHE[key]
@@ -519,6 +618,25 @@ class ManagerMachine(Machine):
         _REF_CACHE.update(shared)
 
     def _referenceUncached(self, op: str, step: dict) -> dict:
+        """ask the pristine reference server"""
+        if self.refServer is None:
+            return self._referenceLocal(op, step)
+        state = {name: getattr(self, name) for name in STATE_FIELDS}
+        state["dirs"] = dict(self._dirs)
+        state["scratch"] = self.ctx.scratch()
+        reply = self.refServer.request(state, op, step)
+        if reply[0] == "error":
+            raise HarnessError("reference server: " + reply[1])
+        stats = reply[-1]
+        for name in ("probes", "checks"):
+            getattr(self.ctx, name).update(stats[name])
+        for name, val in stats["maxima"].items():
+            self.ctx.margin(name, val)
+        if reply[0] == "violation":
+            raise Violation(reply[1], reply[2], reply[3])
+        return reply[1]
+
+    def _referenceLocal(self, op: str, step: dict) -> dict:
         mgr, _, ctl = self._freshManager(SETUP_CFG, self.variant, self.collKind)
         if op != "setup":
             with warnings.catch_warnings():
@@ -814,9 +932,26 @@ class ManagerMachine(Machine):
         self.collKind = step["kind"]
         return ["colldir", self.collKind]
 
+    def _op_params(self, step: dict) -> Any:
+        """a parameter scan: the SAME model instance is re-parametrised in place;
+        WallGo documents that setupThermodynamicsHydrodynamics must be run again"""
+        if step["set"] not in PARAM_SETS[self.kind]:
+            raise Skip()
+        if step["set"] != self.paramSet:
+            self.ctx.probes["model_reparametrised_in_place"] += 1
+        self.paramSet = step["set"]
+        self.model.modelParameters.update(
+            dict(self.params, **PARAM_SETS[self.kind][self.paramSet]))
+        self.valid = False
+        self.point = None
+        return ["params", self.paramSet]
+
     def _op_new_model(self, step: dict) -> Any:
         # a second instance of the same model class is created and discarded
-        other = self.classes[self.kind](fixtures.CallbackCtl(), self.params)
+        otherSet = {"P0": "P1", "P1": "P2", "P2": "P0"}[self.paramSet]
+        other = self.classes[self.kind](
+            fixtures.CallbackCtl(), dict(self.params, **PARAM_SETS[self.kind][otherSet]))
+        self.otherModels = (self.otherModels + [other])[-2:]  # stays alive
         return ["new_model", len(other.outOfEquilibriumParticles),
                 len(self.model.outOfEquilibriumParticles)]
 
@@ -890,6 +1025,10 @@ class ManagerMachine(Machine):
         pts = fixtures.POINTS[self.kind]
         if point not in pts["good"] and point not in pts["bad"]:
             raise Skip()
+        previousTscale = self.tscale
+        self.tscale = step.get("tscale")
+        if self.tscale != previousTscale:
+            self.ctx.probes["derivative_scales_changed_between_setups"] += 1
         armAt = self._takeArm("setup", step)
         rec = self._runOp(self.mgr, self.ctl, "setup", step, armAt, history=True)
         faulted = armAt is not None and rec["fired"]
@@ -909,6 +1048,7 @@ class ManagerMachine(Machine):
         if rec["outcome"] == "ok":
             self.valid = True
             self.point = point
+            self.lastPoint = point
             if self.faultSeen:
                 self.ctx.probes["post_fault_strict_steps"] += 1
         else:
